@@ -78,6 +78,15 @@ func (e *Engine) repCheck(u *Unit, n *types.Named) {
 					continue
 				}
 				mentions := false
+				mentionsOutsideLit := false
+				inLit := func(st []ast.Node) bool {
+					for _, n := range st {
+						if _, ok := n.(*ast.FuncLit); ok {
+							return true
+						}
+					}
+					return false
+				}
 				var stack []ast.Node
 				ast.Inspect(fd.Body, func(nd ast.Node) bool {
 					if nd == nil {
@@ -97,6 +106,9 @@ func (e *Engine) repCheck(u *Unit, n *types.Named) {
 							if fo != nil {
 								if _, isG := guarded[fo]; isG {
 									mentions = true
+									if !inLit(stack) {
+										mentionsOutsideLit = true
+									}
 								}
 								if name, isO := owned[fo]; isO && !freshMapExpr(x.Value) {
 									escapes = append(escapes, fmt.Sprintf("%s: %s initialised with a map that is not fresh", pkg.Fset.Position(x.Pos()), name))
@@ -110,6 +122,9 @@ func (e *Engine) repCheck(u *Unit, n *types.Named) {
 					}
 					if _, isG := guarded[fo]; isG {
 						mentions = true
+						if !inLit(stack) {
+							mentionsOutsideLit = true
+						}
 					}
 					name, isO := owned[fo]
 					if !isO || len(stack) < 2 {
@@ -123,7 +138,16 @@ func (e *Engine) repCheck(u *Unit, n *types.Named) {
 				if mentions {
 					k := calleeKey(obj)
 					if e.cs.Funcs[k] == nil {
-						uncontracted = append(uncontracted, shortKey(k))
+						// accesses confined to closures that have their own contracts are checked there
+						hasClosure := false
+						for ck := range e.cs.Funcs {
+							if strings.HasPrefix(ck, k+"#closure") {
+								hasClosure = true
+							}
+						}
+						if !hasClosure || mentionsOutsideLit {
+							uncontracted = append(uncontracted, shortKey(k))
+						}
 					}
 				}
 			}
